@@ -47,6 +47,8 @@ CmpDy(s1, m1, e1, s2, m2, e2) ==
            c == CmpMag(Shl(m1, e1 - lo), Shl(m2, e2 - lo)) IN
        IF n1 THEN -c ELSE c
 AsDy(x) == IF x.k = "int" THEN [s |-> x.v.n, m |-> x.v.m, e |-> 0] ELSE [s |-> x.s, m |-> x.m, e |-> x.e]
+\* the only divisors that make / // % fail: the integer 0 and the floats +0.0 and -0.0 (not NaN, not a tiny float)
+IsZeroNum(x) == x.k \in {"int", "flt"} /\ AsDy(x).m = <<>>
 CmpNum(x, y) ==
   CASE x.k = "nan" -> IF y.k = "nan" THEN 0 ELSE 1
     [] y.k = "nan" -> -1
